@@ -78,9 +78,9 @@ func init() {
 		plain:       never,
 		shrinkTime:  120 * time.Second,
 		search: func(s *propSpec, b *build, a *agg) {
-			runs := int64(2400)
+			runs := int64(3200)
 			if tier == "thorough" {
-				runs = 1200000
+				runs = 200000
 			}
 			if *flagRuns > 0 {
 				runs = *flagRuns
@@ -132,7 +132,7 @@ func init() {
 	specs["C12"] = &propSpec{
 		id:    "C12",
 		level: "exploration",
-		rule: "one evaluation = one simulated run: a corpus text (accepted or rejected) parsed through a tape-chosen entry point (ParseString, ParseBytes with the buffer overwritten afterwards, Parse over a simulated chunking/failing reader, ParseFile of a fresh file, of a pipe through /proc/self/fd, and of a path that was parsed a moment ago and now holds other bytes of the same size and mtime) with every map-range visit of the translator and printer iterated in a tape-chosen order, the clock simulated, after tape-chosen prior activity (other parses and prints, an earlier module of the same text scribbled over, heap perturbation), sequentially (plain build) or as 2-4 concurrent parse tasks under the seeded scheduler (race build), followed by a canary parse; " +
+		rule: "one evaluation = one simulated run: a corpus text (accepted or rejected) parsed through a tape-chosen entry point (ParseString, ParseBytes with the buffer overwritten afterwards, Parse over a simulated chunking/failing reader, ParseFile of a fresh file, of a pipe through /proc/self/fd, and of a path that was parsed a moment ago and now holds other bytes of the same size and mtime) with every map-range visit of the translator and printer iterated in a tape-chosen order, the clock simulated, after tape-chosen prior activity (other parses and prints, an earlier module of the same text scribbled over, heap perturbation), sequentially (plain build) or as 2-4 concurrent parse tasks under the seeded scheduler (race build; worker processes recycled every 4 runs, 40 in thorough, the first run of a process parsing one text on all tasks), followed by a canary parse; " +
 			"oracle: accepted <=> accepted in the reference, String() byte-identical and structural digest (pointer-numbered reflection walk fixing field contents and sharing) identical to the reference computed in another process with canonical order, failing reader gives (nil, err), no race report between parse tasks, no package-level shared object modified, and no object (package-level singletons excepted) shared between the returned module and the modules earlier or concurrent parses of the run returned. " +
 			"distinct_nontrivial counts distinct (targets, entry points, hash of all applied map orders, hash of all context switches) among runs with a non-canonical map order or a context switch",
 		simulated:   []string{"Go map iteration order at every map range of asm/, ir/, internal/ (canonical order + tape-chosen permutation; keys created or re-created during a range produced or skipped by the tape)", "goroutine scheduling of concurrent parse tasks and of goroutines the translator starts (channels, select, wait groups, pools modelled)", "the file behind ParseFile (regular file, pipe, stat-identical overwrite)", "wall clock (time.Now/time.Since)", "io.Reader argument of asm.Parse (chunking, zero reads, EOF shape, failure offset)", "prior activity and heap state of the process"},
